@@ -47,8 +47,26 @@ func genC03(t *rapid.T) C03Case {
 		if rapid.Bool().Draw(t, "ties") {
 			prog.Ties(t, &p)
 		}
-		if op == "equals" && rapid.IntRange(0, 2).Draw(t, "allequal") == 0 && len(p.Leaves) == 2 {
-			copy(p.Leaves[1].Vals, p.Leaves[0].Vals)
+		if (op == "equals" || op == "eq" || op == "ne") && len(p.Leaves) == 2 {
+			a, b := p.Leaves[0].Vals, p.Leaves[1].Vals
+			switch rapid.IntRange(0, 5).Draw(t, "pairkind") {
+			case 0: // identical
+				copy(b, a)
+			case 1: // identical except for two swapped positions (the differences cancel exactly)
+				copy(b, a)
+				if len(b) >= 2 {
+					i := rapid.IntRange(0, len(b)-1).Draw(t, "swapi")
+					j := rapid.IntRange(0, len(b)-1).Draw(t, "swapj")
+					b[i], b[j] = b[j], b[i]
+				}
+			case 2: // identical except for one position
+				copy(b, a)
+				b[rapid.IntRange(0, len(b)-1).Draw(t, "diffi")] += 0.5
+			case 3: // a reversed
+				for i := range a {
+					b[i] = a[len(a)-1-i]
+				}
+			}
 		}
 	}
 	p.Nodes[0].Op = op
